@@ -187,6 +187,26 @@ pub fn gen_case(seed: u64, id: usize) -> (Target, &'static str, String) {
                     let t = *rng.pick(&["start:\nmov ax, {}\n", "x: db {}\nstart:\n", "x: dw [{}]\nstart:\n", "set {}\nstart:\n", "start:\nprint mem {} -> {}\n", "start:\nmov ax,[bx,{}]\n", "start:\nshl ax,{}\n", "start:\nint {}\n", "start:\nmov ax, -{}\n", "start:\nmov ax, 0x{}\n", "start:\nmov ax, 0b{}\n"]);
                     (target, "digits", t.replace("{}", &d))
                 }
+                4 if rng.chance(1, 3) => {
+                    // address constants around 2^20, 2^31 and 2^32 in every radix and print form
+                    let pick = |rng: &mut Rng| -> u64 {
+                        let base: u64 = *rng.pick(&[1u64 << 20, 1 << 31, 1 << 32, (1 << 32) - (1 << 20), 0xFFF0_0000, 0x7FFF_FFFF, 5, 0]);
+                        (base as i64 + rng.range(-3, 3)).max(0) as u64
+                    };
+                    let spell = |rng: &mut Rng, v: u64| match rng.below(3) {
+                        0 => format!("0b{:b}", v),
+                        1 => format!("0x{:X}", v),
+                        _ => format!("{}", v),
+                    };
+                    let (a, b) = (pick(&mut rng), pick(&mut rng));
+                    let (sa, sb) = (spell(&mut rng, a), spell(&mut rng, b));
+                    let t = match rng.below(3) {
+                        0 => format!("start:\nprint mem {} : {}\n", sa, sb),
+                        1 => format!("start:\nprint mem {} -> {}\n", sa, sb),
+                        _ => format!("start:\nprint mem : {}\n", sa),
+                    };
+                    (target, "print-constant-edge", t)
+                }
                 2 => {
                     // macro-related near misses on a valid macro program
                     let base = "macro ma(p) -> mov ax,p <-\nmacro mb(p,q) -> ma(p) mov bx,q <-\nmacro mc(pp) -> mb(pp,pp) <-\nstart:\nmc(5)\nmb(1,2)\n";
